@@ -293,6 +293,46 @@ def run(facts):
                 res.ok(key, b.loc(x["bi"]), x["text"], nontrivial=True)
             else:
                 res.bad(key, b.loc(x["bi"]), x["text"])
+    returns_only_when_done(res, facts)
     res.floor("try_* readers", n, 60)
     res.floor("panic sites with a TryGetError", n_pan, 3)
     return res
+
+
+def returns_only_when_done(res, facts):
+    """the provided `BufMut::put_slice` / `put_bytes` return normally only when everything was written: on every returning path the work
+    that is left (`src`, re-sliced per round; `cnt`, counted down) is known to be empty / zero where the path leaves.  A shortcut that returns
+    on another ground (`!self.has_remaining_mut()`) drops the write silently where the contract says panic (C11: exactly the bytes, within
+    bounds, or a panic)."""
+    from .flow import enumerate_paths, path_relations, canon, walk
+    from .r_c7 import emptiness
+    for (name, pi, kind) in (("buf::buf_mut::BufMut::put_slice", 2, "slice"), ("buf::buf_mut::BufMut::put_bytes", 3, "count")):
+        l = facts.by_id.get(name, [])
+        if len(l) != 1:
+            continue
+        b = l[0]
+        key = "%s|returns only when done" % name
+        bad = None
+        n = 0
+        mentions = lambda e: any(x == ("param", pi) for x in walk(canon(e))) if isinstance(e, tuple) else False
+        for path in enumerate_paths(b, limit=2000):
+            n += 1
+            rels = [r for r in path_relations(b, facts, path) if r]
+            if kind == "slice":
+                ok = emptiness(rels, mentions, 1)
+            else:
+                ok = False
+                for r in rels:
+                    if len(r) > 2 and isinstance(r[1], tuple) and isinstance(r[2], tuple):
+                        a_, b_ = canon(r[1]), canon(r[2])
+                        if (r[0] in ("eq", "le") and mentions(a_) and b_ == ("const", 0)) or (r[0] == "eq" and mentions(b_) and a_ == ("const", 0)) \
+                                or (r[0] == "lt" and mentions(a_) and b_ == ("const", 1)):
+                            ok = True
+            if not ok:
+                bad = path
+                break
+        if bad:
+            res.bad(key, b.loc(), "the path bb%s returns although the %s is not known to be %s there: the write is dropped without a panic" % (
+                "->bb".join(str(x) for x in bad), "rest of the source" if kind == "slice" else "count left", "empty" if kind == "slice" else "zero"))
+        else:
+            res.ok(key, b.loc(), "%d returning path(s), each with the work left known to be empty / zero" % n, nontrivial=True)
